@@ -435,6 +435,54 @@ pub fn dispatch_prop(toks: &[&str]) -> Option<String> {
         }) {
             return Some(format!("FAIL iterator {idx}: stream depends on the previous buffer contents"));
         }
+        // "the events are: …" is a statement about the stream however it is consumed: `nth`, `skip`, `step_by`, `last`, `count` and
+        // interleavings of `next` and `nth` must hand out the same events as `next` alone (an implementation may override any of
+        // the `Iterator` methods: seed C20-n)
+        if full.len() <= 4000 {
+            let same = |a: &SliderEvent, b: &SliderEvent| {
+                a.kind == b.kind && a.span_idx == b.span_idx && same_bits(a.time, b.time) && same_bits(a.span_start_time, b.span_start_time) && same_bits(a.path_progress, b.path_progress)
+            };
+            fn mk<'a>(u: &Use, buf: &'a mut Vec<SliderEvent>) -> SliderEventsIter<'a> {
+                SliderEventsIter::new(u.start, u.dur, u.vel, u.tick, u.total, u.n, buf)
+            }
+            let len = full.len();
+            let picks = [(0usize, 0usize), (0, 1), (1, 0), (1, 2), (2, 3), (3, 1), (0, len.saturating_sub(1)), (1, len.saturating_sub(2)), (2, len), (len / 2, 1), (len / 2, len / 3)];
+            for (j, n) in picks {
+                let mut b2 = Vec::new();
+                let r = panic::catch_unwind(AssertUnwindSafe(|| {
+                    let mut it = mk(u, &mut b2);
+                    for _ in 0..j {
+                        it.next();
+                    }
+                    let x = it.nth(n);
+                    let y = it.next();
+                    (x, y)
+                }));
+                let Ok((x, y)) = r else { return Some(format!("FAIL iterator {idx}: panic in next^{j}; nth({n})")) };
+                let (wx, wy) = (full.get(j + n), full.get(j + n + 1));
+                let okx = match (&x, wx) { (Some(a), Some(b)) => same(a, b), (None, None) => true, _ => false };
+                let oky = match (&y, wy) { (Some(a), Some(b)) => same(a, b), (None, None) => true, _ => false };
+                if !okx || !oky {
+                    return Some(format!("FAIL iterator {idx}: after {j} calls of next, nth({n}) / the following next differ from the events next alone hands out"));
+                }
+            }
+            let mut b3 = Vec::new();
+            let stepped: Vec<SliderEvent> = mk(u, &mut b3).step_by(2).collect();
+            let mut b4 = Vec::new();
+            let skipped: Vec<SliderEvent> = mk(u, &mut b4).skip(3).collect();
+            let mut b5 = Vec::new();
+            let cnt = mk(u, &mut b5).count();
+            let mut b6 = Vec::new();
+            let last = mk(u, &mut b6).last();
+            let want_step: Vec<&SliderEvent> = full.iter().step_by(2).collect();
+            if stepped.len() != want_step.len() || stepped.iter().zip(&want_step).any(|(a, b)| !same(a, b))
+                || skipped.len() != len.saturating_sub(3) || skipped.iter().zip(full.iter().skip(3)).any(|(a, b)| !same(a, b))
+                || cnt != len
+                || match (&last, full.last()) { (Some(a), Some(b)) => !same(a, b), (None, None) => false, _ => true }
+            {
+                return Some(format!("FAIL iterator {idx}: step_by / skip / count / last disagree with the events next hands out"));
+            }
+        }
         match check_use(u, &full) {
             Err(e) => return Some(format!("FAIL iterator {idx}: {e}")),
             Ok(d) => {
